@@ -108,8 +108,14 @@ pub trait SqrtFld: Fld {
 // Fq
 // ---------------------------------------------------------------------------------------------
 
-#[derive(Clone, PartialEq, Eq, Debug, Hash, PartialOrd, Ord)]
+#[derive(Clone, PartialEq, Eq, Hash, PartialOrd, Ord)]
 pub struct Fq(pub Z);
+
+impl Debug for Fq {
+    fn fmt(&self, f: &mut std::fmt::Formatter) -> std::fmt::Result {
+        write!(f, "0x{:x}", self.0)
+    }
+}
 
 impl Fq {
     pub fn new(v: Z) -> Fq {
@@ -204,10 +210,16 @@ impl SqrtFld for Fq {
 // Fq2
 // ---------------------------------------------------------------------------------------------
 
-#[derive(Clone, PartialEq, Eq, Debug, Hash)]
+#[derive(Clone, PartialEq, Eq, Hash)]
 pub struct Fq2 {
     pub c0: Fq,
     pub c1: Fq,
+}
+
+impl Debug for Fq2 {
+    fn fmt(&self, f: &mut std::fmt::Formatter) -> std::fmt::Result {
+        write!(f, "[{:?} + {:?}*u]", self.c0, self.c1)
+    }
 }
 
 impl Fq2 {
@@ -332,8 +344,14 @@ impl SqrtFld for Fq2 {
 // flat Fq12
 // ---------------------------------------------------------------------------------------------
 
-#[derive(Clone, PartialEq, Eq, Debug, Hash)]
+#[derive(Clone, PartialEq, Eq, Hash)]
 pub struct Fq12(pub [Z; 12]);
+
+impl Debug for Fq12 {
+    fn fmt(&self, f: &mut std::fmt::Formatter) -> std::fmt::Result {
+        write!(f, "Fq12[{}]", self.hex())
+    }
+}
 
 fn zarr12() -> [Z; 12] {
     Default::default()
